@@ -12,6 +12,7 @@ import threading
 from oslo_config import cfg
 
 from mvf import actions as vactions
+from mvf import lang
 from mvf import boot
 from mvf import coop as coop_mod
 from mvf import recorder as rec_mod
@@ -83,6 +84,48 @@ def _install_seams():
 
     post_tx_queue.threading = _Shim()
     rec_mod.install_hooks()
+    _wrap_job_invocation()
+
+
+def _wrap_job_invocation():
+    """Observe exceptions that escape scheduled job *functions* (both
+    schedulers swallow and log them)."""
+    import functools
+    import traceback
+    from mistral.scheduler import default_scheduler
+    from mistral.services import legacy_scheduler
+
+    def observed(func, args):
+        @functools.wraps(func)
+        def call(**kw):
+            rec = rec_mod.current()
+            name = getattr(func, '__name__', repr(func))
+            try:
+                res = func(**kw)
+            except BaseException as e:
+                if rec is not None and not isinstance(e, coop_mod.Abort):
+                    rec.emit('JOB_INVOKE', func=name, exc=type(e).__name__,
+                             exc_declared=_declared(e), exc_msg=str(e)[:300],
+                             tb=traceback.format_exc()[-1500:])
+                raise
+            if rec is not None:
+                rec.emit('JOB_INVOKE', func=name, exc=None)
+            return res
+        return call
+
+    orig_invoke = default_scheduler.DefaultScheduler._invoke_job
+
+    def _invoke_job(auth_ctx, func, args):
+        return orig_invoke(auth_ctx, observed(func, args), args)
+    default_scheduler.DefaultScheduler._invoke_job = staticmethod(_invoke_job)
+
+    orig_calls = legacy_scheduler.LegacyScheduler._invoke_calls
+
+    def _invoke_calls(delayed_calls):
+        return orig_calls([(c, observed(m, a), a)
+                           for (c, m, a) in delayed_calls])
+    legacy_scheduler.LegacyScheduler._invoke_calls = \
+        staticmethod(_invoke_calls)
 
 
 class Strategy(object):
@@ -184,6 +227,10 @@ class World(object):
         self.ctx = boot.default_ctx(case.get('project', 'p1'))
         self.overrides = []
         self.q0 = None
+        self.wfdefs = {}
+        self.stopped = {}           # wf_ex_id -> state requested by a stop
+        self.reran = {}             # task_ex_id -> number of reruns
+        self.allow_paused = False
 
     # ------------------------------------------------------------------
     def setup(self):
@@ -244,6 +291,10 @@ class World(object):
         from mistral import context as auth_context
         from mistral.services import workflows as wf_service
         from mistral.services import workbooks as wb_service
+        try:
+            self.wfdefs.update(lang.load(text))
+        except Exception:
+            pass
         auth_context.set_ctx(self.ctx)
         try:
             if kind == 'wf':
@@ -281,6 +332,28 @@ class World(object):
         h = self.command('start_workflow', wf_name, '', None,
                          wf_input or {}, '', **params)
         return h
+
+    # operator commands with the bookkeeping the monitors need
+    def op_pause(self, wf_ex_id):
+        self.rec.emit('CMD', cmd='pause', wf_ex_id=wf_ex_id)
+        return self.command('pause_workflow', wf_ex_id)
+
+    def op_resume(self, wf_ex_id, env=None):
+        self.rec.emit('CMD', cmd='resume', wf_ex_id=wf_ex_id)
+        return self.command('resume_workflow', wf_ex_id, env=env)
+
+    def op_stop(self, wf_ex_id, state, msg=None):
+        self.rec.emit('CMD', cmd='stop', wf_ex_id=wf_ex_id, state=state,
+                      msg=msg)
+        self.stopped[wf_ex_id] = state
+        return self.command('stop_workflow', wf_ex_id, state, msg)
+
+    def op_rerun(self, task_ex_id, reset=True, skip=False, env=None):
+        self.rec.emit('CMD', cmd='skip' if skip else 'rerun',
+                      task_ex_id=task_ex_id, reset=reset)
+        self.reran[task_ex_id] = self.reran.get(task_ex_id, 0) + 1
+        return self.command('rerun_workflow', task_ex_id, reset=reset,
+                            skip=skip, env=env)
 
     def engine_cast(self, method, _ctx=None, **kwargs):
         """Harness-originated cast to the engine (e.g. an async result)."""
@@ -464,6 +537,7 @@ class World(object):
     def _unit_end(self, u):
         self.rec.emit('UNIT_END', uid=u.uid, ukind2=u.kind, label=u.label,
                       exc=type(u.exc).__name__ if u.exc else None,
+                      exc_declared=_declared(u.exc),
                       exc_mod=type(u.exc).__module__ if u.exc else None,
                       exc_msg=str(u.exc)[:300] if u.exc else None,
                       tb=u.tb[-1500:] if u.tb else None)
@@ -548,11 +622,16 @@ class World(object):
         while self.step_once(include_integrity):
             pass
 
-    def run(self, integrity_rounds=3):
+    def run(self, integrity_rounds=3, phases=()):
         """Drain to quiescence: Q0 (nothing pending but integrity checks),
         then `integrity_rounds` rounds of the engine's own integrity check
-        (Q1, the verdict point)."""
+        (Q1, the verdict point).  `phases` are callables run at successive
+        quiescent points before Q0 is declared (e.g. "now resume")."""
         self.drain()
+        for ph in phases:
+            if ph(self) is False:
+                continue
+            self.drain()
         self.rec.snapshot('q0')
         self.q0 = self.summary()
         self.rec.emit('Q0')
@@ -569,6 +648,31 @@ class World(object):
             self.stats['integrity_needed'] = True
         for m in self.monitors:
             m.at_quiescence(self)
+
+    def dropped_non_hold(self):
+        return [m for m in self.dropped
+                if m.kwargs.get('action_ex_id') not in self.withheld]
+
+    def has_withheld_below(self, wf_ex_id):
+        """True if some action below this execution never got a result
+        because the harness withheld it (so RUNNING is legitimate)."""
+        rows = self.rec.rows
+        todo = [wf_ex_id]
+        while todo:
+            wid = todo.pop()
+            for t in rows['task'].values():
+                if t['workflow_execution_id'] != wid:
+                    continue
+                for a in rows['action'].values():
+                    if a.get('task_execution_id') == t['id'] and \
+                            a['id'] in self.withheld and \
+                            a['state'] not in ('SUCCESS', 'ERROR',
+                                               'CANCELLED'):
+                        return True
+                for w in rows['wf'].values():
+                    if w.get('task_execution_id') == t['id']:
+                        todo.append(w['id'])
+        return False
 
     # -- observation ----------------------------------------------------------
     def summary(self):
@@ -592,6 +696,15 @@ class World(object):
             if not r.get('task_execution_id'):
                 return r
         return None
+
+
+def _declared(e):
+    if e is None:
+        return None
+    from mistral import exceptions as exc
+    from mistral_lib import exceptions as lib_exc
+    return isinstance(e, (exc.MistralException, exc.MistralError,
+                          lib_exc.MistralException))
 
 
 def _ids(msg):
